@@ -302,7 +302,7 @@ theorem leaves_only_by_finish {s s' : State} {a : Action} {r : Nat} {q q' : Req}
     split at hs
     next cs hcs =>
       split at hs
-      · simp at hs; subst hs; exact (same rfl).elim
+      · split at hs <;> (simp at hs; subst hs; exact (same rfl).elim)
       · simp at hs
     next => simp at hs
   | newReq c get =>
